@@ -54,12 +54,9 @@ def run_stress(chk, pid, runner, tier, seed, workdir, log, only_key):
     e = chk.env()
     e["GORACE"] = "halt_on_error=0 log_path=%s" % os.path.join(out, "race")
     import subprocess
-    try:
-        r = subprocess.run([exe, "-seed", str(seed), "-tier", tier, "-out", out] + runner.get("args", []), cwd=workdir, env=e, text=True,
-                           stdout=subprocess.PIPE, stderr=subprocess.PIPE, timeout=runner.get("timeout", 1500))
-        rc, err = r.returncode, r.stderr
-    except subprocess.TimeoutExpired as ex:
-        rc, err = -9, "timeout " + str(ex)
+    r = chk.run([exe, "-seed", str(seed), "-tier", tier, "-out", out] + runner.get("args", []), cwd=workdir, env=e,
+                timeout=runner.get("timeout", 600 if tier == "quick" else 3000))
+    rc, err = r.returncode, r.stderr
     log.append(("stress " + name, rc, err[-3000:]))
     races = []
     for f in glob.glob(os.path.join(out, "race.*")):
